@@ -11,6 +11,7 @@ import (
 	"sort"
 	"sync"
 	"sync/atomic"
+	"time"
 
 	"github.com/openconfig/goyang/pkg/yang"
 	"verif/internal/dump"
@@ -108,12 +109,47 @@ func sortedKeys(m map[string]*yang.Module) []string {
 	return ks
 }
 
+// yielder perturbs schedules at the yield points compiled into goyang under the verif tag
+// (before the library takes one of its locks). What it does at an arrival is a pure
+// function of (seed, arrival number), so a seed names a perturbation pattern; the
+// arrival sequence itself is recorded as part of the interleaving signature.
+type yielder struct {
+	seed   uint64
+	n      uint64
+	mu     sync.Mutex
+	trace  []byte
+	counts [4]int64
+}
+
+var pointIndex = map[string]byte{"ns.lookup": 0, "entrycache.get": 1, "entrycache.set": 2, "typedict.find": 3}
+
+func (y *yielder) at(point string) {
+	n := atomic.AddUint64(&y.n, 1)
+	pi := pointIndex[point]
+	atomic.AddInt64(&y.counts[pi], 1)
+	if n < 1<<14 {
+		y.mu.Lock()
+		if len(y.trace) < 4096 {
+			y.trace = append(y.trace, pi)
+		}
+		y.mu.Unlock()
+	}
+	x := (n + y.seed) * 0x9e3779b97f4a7c15
+	x ^= x >> 29
+	switch x % 16 {
+	case 0, 1, 2:
+		runtime.Gosched()
+	case 3:
+		time.Sleep(time.Duration(1+x>>8%40) * time.Microsecond)
+	}
+}
+
 // Run: each case index is one round. Even rounds: 16 goroutines each run the whole
 // pipeline on their own set. Odd rounds: one processed set is read by 16 goroutines at
 // once (first-time namespace lookups included), from a barrier.
 func Run(j *job.Job, s *job.Sink) {
 	for c := j.Start; c < j.Start+j.Count; c++ {
-		s.Current(c, map[string]any{"round": c, "kind": []string{"pipelines", "readers"}[c%2]})
+		s.Current(c, map[string]any{"round": c, "kind": []string{"pipelines", "readers", "mixed"}[c%3]})
 		s.Count("rounds", 1)
 		var order []int32 // arrival order at the barrier release, as an interleaving signature
 		var mu sync.Mutex
@@ -124,7 +160,68 @@ func Run(j *job.Job, s *job.Sink) {
 			order = append(order, int32(g)<<8|n&0xff)
 			mu.Unlock()
 		}
-		if c%2 == 0 {
+		y := &yielder{seed: uint64(j.Seed)*1000003 + uint64(c)}
+		yang.VerifSetYield(y.at)
+		kind := c % 3 // 0 pipelines, 1 readers, 2 mixed
+		if kind == 2 {
+			// mixed round: eight goroutines run pipelines on their own sets while eight read
+			// one shared processed set; interference through package-level state would show
+			// on either side
+			st := gen(j.Seed, c*goroutines)
+			shared, errs := load(st)
+			sets := make([]set, goroutines/2)
+			want := make([]string, goroutines/2)
+			for g := range sets {
+				sets[g] = gen(j.Seed, c*goroutines+1+int64(g))
+				ms, e2 := load(sets[g])
+				want[g] = dump.Set(ms, e2, true)
+			}
+			if len(errs) > 0 {
+				s.Count("reader_round_skipped_errors", 1)
+				yang.VerifSetYield(nil)
+				continue
+			}
+			start := make(chan struct{})
+			var wg sync.WaitGroup
+			var badP, badR int32
+			views := make([]string, goroutines/2)
+			for g := 0; g < goroutines/2; g++ {
+				wg.Add(2)
+				go func(g int) {
+					defer wg.Done()
+					<-start
+					arrive(g)
+					ms, e2 := load(sets[g])
+					if dump.Set(ms, e2, true) != want[g] {
+						atomic.AddInt32(&badP, 1)
+					}
+				}(g)
+				go func(g int) {
+					defer wg.Done()
+					<-start
+					arrive(goroutines/2 + g)
+					views[g] = readerView(shared)
+				}(g)
+			}
+			close(start)
+			wg.Wait()
+			ref := readerView(shared)
+			for g := range views {
+				if views[g] != ref {
+					badR++
+				}
+			}
+			s.Count("pipeline_runs", goroutines/2)
+			s.Count("reader_views", goroutines/2)
+			s.Count("mixed_rounds", 1)
+			s.Count("nontrivial", 1)
+			if badP > 0 && stableSequentially(sets, want, s) {
+				s.Violation(c, j.CaseID(c), "C19.result", "pipeline-result-differs", fmt.Sprintf("%d pipeline runs next to concurrent readers differ from the sequential result", badP), sets[0], nil)
+			}
+			if badR > 0 {
+				s.Violation(c, j.CaseID(c), "C19.result", "reader-result-differs", fmt.Sprintf("%d of %d readers next to concurrent pipelines saw something else than the sequential reader", badR, goroutines/2), st, nil)
+			}
+		} else if kind == 0 {
 			sets := make([]set, goroutines)
 			want := make([]string, goroutines)
 			for g := range sets {
@@ -154,7 +251,7 @@ func Run(j *job.Job, s *job.Sink) {
 			wg.Wait()
 			s.Count("pipeline_runs", goroutines*3)
 			s.Count("nontrivial", 1)
-			if bad > 0 {
+			if bad > 0 && stableSequentially(sets, want, s) {
 				s.Violation(c, j.CaseID(c), "C19.result", "pipeline-result-differs", fmt.Sprintf("%d concurrent pipeline runs differ from the sequential result", bad), sets[0], nil)
 			}
 		} else {
@@ -199,13 +296,37 @@ func Run(j *job.Job, s *job.Sink) {
 				s.Violation(c, j.CaseID(c), "C19.result", "reader-result-differs", fmt.Sprintf("%d of %d concurrent readers saw something else than the sequential reader", bad, goroutines), st, nil)
 			}
 		}
+		yang.VerifSetYield(nil)
 		h := fnv.New64a()
 		for _, o := range order {
 			h.Write([]byte{byte(o >> 8), byte(o)})
+		}
+		y.mu.Lock()
+		h.Write(y.trace)
+		y.mu.Unlock()
+		for pt, ix := range pointIndex {
+			s.Count("yield_point_arrivals:"+pt, atomic.LoadInt64(&y.counts[ix]))
 		}
 		s.Seen("interleaving_signatures", fmt.Sprintf("%x", h.Sum64()))
 		if c%100 == 1 {
 			s.Sample(1, map[string]any{"round": c, "kind": "readers", "goroutines": goroutines})
 		}
 	}
+}
+
+// stableSequentially re-runs the sets one after the other: a set whose sequential result
+// itself changes from run to run is not evidence of interference (that is C05's subject),
+// so a difference is only blamed on concurrency when three more sequential runs all
+// reproduce the reference.
+func stableSequentially(sets []set, want []string, s *job.Sink) bool {
+	for k := 0; k < 3; k++ {
+		for g := range sets {
+			ms, errs := load(sets[g])
+			if dump.Set(ms, errs, true) != want[g] {
+				s.Count("sequentially_unstable_sets_not_blamed_on_concurrency", 1)
+				return false
+			}
+		}
+	}
+	return true
 }
